@@ -168,4 +168,96 @@ theorem mergeStep_spec (P : Params) (hP : P.OK) (n0 : Nat) (ids0 : List Nat) (s 
         · exact hob1 _ hobo x.1)]
       exact os2.live j (by omega) h2'
 
+
+/-- `Inv` does not look at the states of the optionals -/
+theorem Inv.transfer' {P : Params} {h h' : Heap} {o : Sketch} (inv : Inv P h o)
+    (so : ∀ x, x ∈ owned o → x ≠ o.self → SameOn h h' x) (hc : HasCells h' o.self 2) (hn : h.next ≤ h'.next) :
+    Inv P h' o := by
+  refine ⟨inv.m_eq, hc, by have := inv.self_lt; omega, ?_, ?_⟩
+  · intro v hv
+    obtain ⟨a, b, c, d⟩ := inv.view_ok v hv
+    have sv := so v (mem_owned.2 (Or.inr (Or.inr hv))) d
+    exact ⟨sv.cells _ a, by rw [sv.st]; exact b, by omega, d⟩
+  · intro b hb
+    obtain ⟨a, c, d, e, f⟩ := inv.items_ok b hb
+    exact ⟨a, c.transfer (so b (mem_owned.2 (Or.inr (Or.inl hb))) e), by omega, e, f⟩
+
+/-- what `merge_higher_levels` has to deliver (supplied by the caller of `mergeTail_spec`) -/
+def MHLSpec (P : Params) (n0 : Nat) (s o : Sketch) (b : Nat) (byMove : Bool) (hA : Heap) : Prop :=
+  ∀ (sa : Sketch) (ca : List Bool) (ba : Nat) (h1 : Heap) (finalN : Nat),
+    SSide (foot (owned s ++ owned o) n0) hA h1 s sa b ba → Inv P h1 o → (byMove = false → Usable P h1 o) →
+    SafeF (foot (owned s ++ owned o) n0) h1 (mergeHigherLevels sa o false finalN ca h1)
+      (fun r h' => (∃ ba', SSide (foot (owned s ++ owned o) n0) hA h' s r.1 b ba') ∧ Inv P h' o ∧
+        (byMove = false → Usable P h' o))
+
+/-- the state after the min/max update of `merge` -/
+structure AfterMM (h hA : Heap) (s o : Sketch) (byMove : Bool) : Prop where
+  sb : SameBut h hA (fun b' _ => b' = s.self ∨ b' = o.self)
+  smm : (∃ w, stAt hA s.self 0 = .live w) ∧ (∃ w, stAt hA s.self 1 = .live w)
+  okeep : byMove = false → ∀ j, stAt hA o.self j = stAt h o.self j
+
+theorem mergeTail_spec (P : Params) (hP : P.OK) (n0 : Nat) (ids0 : List Nat) (s o : Sketch) (b : Nat) (h : Heap)
+    (ctx : MCtx P n0 ids0 s o b h) (byMove : Bool) (coins : List Bool) (hon : o.n ≠ 0) (hA : Heap)
+    (amm : AfterMM h hA s o byMove) (hml : o.numLevels ≥ 2 → MHLSpec P n0 s o b byMove hA) :
+    SafeF (foot (owned s ++ owned o) n0) hA (mergeTail s o byMove coins hA)
+      (fun r h'' => Usable P h'' r.1 ∧ Inv P h'' o ∧ (byMove = false → Usable P h'' o) ∧
+        (∀ x, x ∈ owned r.1 → x ∉ owned o) ∧ Owns h'' ids0 (owned s ++ owned o) (owned r.1 ++ owned o) n0) := by
+  obtain ⟨hself_lt, hblt, hbself, hbi, hviewf, hof⟩ := ctx.static
+  have invs := ctx.us.toInv
+  have invo := ctx.uo.toInv
+  obtain ⟨ob, hob, _⟩ := ctx.uo.items
+  have hobo : ob ∈ owned o := mem_owned.2 (Or.inr (Or.inl hob))
+  obtain ⟨loko, _, _, hobself, _⟩ := invo.items_ok ob hob
+  have ilo := ctx.uo.itemsLive hob
+  have hAid : hA.ids = ids0 := by rw [amm.sb.ids, ctx.hid]
+  have hAnx : hA.next = n0 := by rw [amm.sb.next, ctx.hnx]
+  have hoself : o.self ∈ owned o := mem_owned.2 (Or.inl rfl)
+  have hso : s.self ≠ o.self := fun e => (hof _ hoself).2.1 e.symm
+  -- blocks other than the two object storages are unchanged
+  have oth : ∀ x, x ≠ s.self → x ≠ o.self → SameOn h hA x := fun x h1 h2 =>
+    amm.sb.sameOn (fun j e => by rcases e with e | e; exact h1 e; exact h2 e)
+  have sb0 : SameOn h hA b := oth b hbself (fun e => (hof _ hoself).2.2.1 e.symm)
+  have ss0 : SSide (foot (owned s ++ owned o) n0) hA hA s s b b := by
+    refine ⟨⟨ctx.hb, (invs.items_ok b ctx.hb).1, (ctx.us.itemsLive ctx.hb).transfer sb0⟩, SameMeta.refl s,
+      ReallocIds.of_eq rfl rfl (fun x hx => by rw [hAid] at hx; rw [hAnx]; exact ctx.hwf x hx) (by rw [hAid]; exact hbi),
+      amm.sb.cells _ _ invs.self_cells, amm.smm, fun w hw => ?_, foot_own (by simp [mem_owned, ctx.hb])⟩
+    obtain ⟨x1, x2, x3⟩ := hviewf w hw
+    have sw := oth w x3 (fun e => (hof _ hoself).2.2.2 (e ▸ hw))
+    exact ⟨sw.cells _ (invs.view_ok w hw).1, by rw [sw.st]; exact (invs.view_ok w hw).2.1⟩
+  have os0 : OSide P hA o ob byMove (o.levels.getD 0 0) := by
+    have soth : ∀ x, x ∈ owned o → x ≠ o.self → SameOn h hA x := fun x hx hne => oth x (hof x hx).2.1 hne
+    refine ⟨invo.transfer' soth (amm.sb.cells _ _ invo.self_cells) (by rw [amm.sb.next]; exact Nat.le_refl _),
+      fun e => ctx.uo.transfer (fun x hx => ?_) (by rw [amm.sb.next]; exact Nat.le_refl _), fun j h1 h2 => ?_⟩
+    · by_cases hx' : x = o.self
+      · subst hx'; exact ⟨amm.okeep e, fun m hc => amm.sb.cells _ _ hc⟩
+      · exact soth x hx hx'
+    · rw [(soth ob hobo hobself).st]; exact ilo.live j h1 h2
+  unfold mergeTail
+  have hlen := loko.len
+  have hnl := loko.nl
+  apply step_lv (by omega)
+  apply step_lv (by omega)
+  apply step_deref_eq hob
+  have h01 : o.levels.getD 0 0 ≤ o.levels.getD 1 0 := loko.mono 0 (by omega)
+  have h1t : o.levels.getD 1 0 ≤ o.itemsSize := loko.le_top 1 (by omega)
+  have loop := TripleS.foldUp (n0 := 0) (S := foot (owned s ++ owned o) n0)
+    (fun i (acc : Sketch × List Bool) h' => ∃ ba, SSide (foot (owned s ++ owned o) n0) hA h' s acc.1 b ba ∧
+      OSide P h' o ob byMove i)
+    (mergeStep byMove ob) (o.levels.getD 1 0 - o.levels.getD 0 0) (o.levels.getD 0 0) (s, coins) ?_
+  · apply SafeF.bind_triple loop (Nat.zero_le _) ⟨b, ss0, os0⟩
+    intro acc h1 ⟨ba, ss1, os1⟩ _
+    obtain ⟨sa, ca⟩ := acc
+    simp only at ss1 ⊢
+    have hfn : s.n + o.n ≠ 0 := by omega
+    by_cases hlv : o.numLevels ≥ 2
+    · rw [if_pos hlv]
+      apply SafeF.bind' (hml hlv sa ca ba h1 (s.n + o.n) ss1 os1.inv os1.usable)
+      intro r h2 ⟨⟨ba', ss2⟩, io2, uo2⟩ _
+      obtain ⟨s2, c2⟩ := r
+      exact mergeFinish_spec P n0 ids0 s o b h hA h2 s2 ba' c2 byMove (s.n + o.n) ctx hAid hAnx ss2 io2 uo2 hfn
+    · rw [if_neg hlv, pure_bind_apply]
+      exact mergeFinish_spec P n0 ids0 s o b h hA h1 sa ba ca byMove (s.n + o.n) ctx hAid hAnx ss1 os1.inv os1.usable hfn
+  · intro i acc hi1 hi2 h1 _ ⟨ba, ss1, os1⟩
+    exact mergeStep_spec P hP n0 ids0 s o b h ctx ob hob byMove hA hAid hAnx i acc ba h1 ss1 os1 (by omega)
+
 end DS.Life.Kll
